@@ -327,6 +327,12 @@ Qed.
 Lemma wiring_all_true : forallb (fun b => b) gen_wiring = true.
 Proof. vm_compute. reflexivity. Qed.
 
+(* ------------------------------------------------------------------ the execution history does not reach a result *)
+(* fact read off the source by the translator's data-flow pass: this is what makes the id-only model
+   (no last_service_start / last_service_end parameter) a model of the functions for EVERY runner list *)
+Lemma history_free_all_true : forallb (fun b => b) gen_history_free = true.
+Proof. vm_compute. reflexivity. Qed.
+
 (* ------------------------------------------------------------------ which spelling the source uses *)
 Lemma gen_end_form_sound : end_form_claim gen_end_form.
 Proof. cbv [gen_end_form end_form_claim]. first [exact I | intros; reflexivity]. Qed.
